@@ -38,22 +38,34 @@ if common.REPO != '/repo':
 
 warnings.filterwarnings('ignore')
 
-PROP_MAIN = ['Lcapy/Props/C16.lean', 'Lcapy/Props/C16Tables.lean', 'Lcapy/Props/C16Full.lean', 'Lcapy/Props/C16Order.lean']
-PROP_CODE = []      # table checks that build iff the code is free of a recorded open finding (none at present)
+PROP_MAIN = ['Lcapy/Props/C16.lean', 'Lcapy/Props/C16Pure.lean', 'Lcapy/Props/C16Tables.lean', 'Lcapy/Props/C16Full.lean',
+             'Lcapy/Props/C16Order.lean']
+# table checks that build iff the code is free of a recorded open finding: the exception branch of `add`
+PROP_CODE = ['Lcapy/Props/C16Atomic.lean']
 HELPERS = ['Lcapy/Model/Cache.lean', 'Lcapy/Model/CacheAux.lean', 'Lcapy/Spec/Cache.lean',
            'Lcapy/Proofs/CacheTab.lean', 'Lcapy/Proofs/CacheElts.lean', 'Lcapy/Proofs/CacheInv.lean',
-           'Lcapy/Proofs/CacheIso.lean', 'Lcapy/Proofs/CacheAux.lean', 'Lcapy/Driver/C16.lean',
+           'Lcapy/Proofs/CacheIso.lean', 'Lcapy/Proofs/CachePure.lean', 'Lcapy/Proofs/CacheAux.lean', 'Lcapy/Driver/C16.lean',
            'Lcapy/Generated/Caches.lean']
 
 LIST_QUERIES = ['capacitors', 'inductors', 'voltage_sources', 'current_sources', 'reactances',
-                'independent_sources', 'node_list', 'branch_list', 'kinds']
+                'independent_sources', 'node_list', 'branch_list', 'kinds', 'dependent_sources', 'twoports',
+                'unconnected_nodes', 'equipotential_nodes', 'loops']
 BOOL_QUERIES = ['has_dc', 'has_ac', 'is_dc', 'is_ac', 'is_causal', 'is_IVP', 'is_connected']
 CHEAP_QUERIES = LIST_QUERIES + BOOL_QUERIES
+# graph-based queries with arguments: (query, kind of argument)
+GRAPH_QUERIES = [('in_series', 'cpt?'), ('in_parallel', 'cpt?'), ('across_nodes', 'node2'), ('unreachable_nodes', 'node'),
+                 ('ladder', 'node2')]
 SOLVE_QUERIES = ['get_Vd', 'get_I']
-HEAVY_QUERIES = ['sim', 'transfer', 'state_space']
+HEAVY_QUERIES = ['sim', 'transfer', 'state_space', 'thevenin']
 DERIVES = ['copy', 'kill', 'select', 'simplify', 'remove_dangling', 'subs']
-NODES = ['0', '1', '2', '3', '4']
+NODES = ['0', '1', '2', '3', '4', '5']
 SOLVE_TIMEOUT = 25.0
+# the name the model knows a harness query by (`loops` goes through the cached circuit graph)
+MODEL_QUERY = {'loops': 'cg'}
+# process-wide settings toggled (and toggled back) inside histories: name -> alternative value
+SETTING_ALTS = {'state.current_sign_convention': 'active', 'state.zero_initial_conditions': True,
+                'state.loose_units': False, 'state.show_units': True, 'state.canonical_units': True,
+                'state.warn_subs': True, 'state.warn_unknown_symbol': True}
 
 
 class Timeout(Exception):
@@ -88,16 +100,82 @@ class Real:
         return c.netlist()
 
     # ---- observations
+    @staticmethod
+    def an(n):
+        """anonymous components (`W 1 2`) are numbered by a per-instance counter that is never reset: the number is
+        not part of the netlist text, so it is canonicalised away"""
+        return re.sub(r'anon\d+$', 'anon', n)
+
     def structural(self, c):
-        """(tokens) element order, node counters, dangling components -- pure reads"""
-        # anonymous components (`W 1 2`) are numbered by a per-instance counter that is never reset: the number is
-        # not part of the netlist text, so it is canonicalised away
-        def an(n):
-            return re.sub(r'anon\d+$', 'anon', n)
+        """(tokens) element order, node table (keys, electrical counts, connection entries per node), unconnected
+        nodes, dangling components -- pure reads of `_elements` / `nodes`, no memo is touched"""
+        an = self.an
         names = [an(n) for n in c._elements.keys()]
         counts = sorted('%s:%d' % (n, node.count) for n, node in c.nodes.items())
+        degs = sorted('%s:%d' % (n, len(node.connected)) for n, node in c.nodes.items())
+        conn = sorted('%s:%s' % (n, '+'.join(sorted(an(x.name) for x in node.connected))) for n, node in c.nodes.items())
+        unconn = sorted(c.unconnected_nodes())
         dang = [an(n) for n, e in c._elements.items() if e.is_dangling]
-        return ['elts=' + (','.join(names) or '-'), 'counts=' + (','.join(counts) or '-'), 'dang=' + (','.join(dang) or '-')]
+        j = lambda l: ','.join(l) or '-'        # noqa
+        return ['elts=' + j(names), 'counts=' + j(counts), 'degs=' + j(degs), 'unconn=' + j(unconn), 'dang=' + j(dang),
+                'conn=' + j(conn)]
+
+    MODEL_STRUCT = ('elts', 'counts', 'degs', 'unconn', 'dang')
+
+    def battery(self, c):
+        """the FIXED battery of read-only observations made on the same instance after every query op; every item is
+        evaluated twice in a row; none of them constructs a netlist (so the class-level caches stay as they are)"""
+        an = self.an
+        names = [n for n in c._elements.keys()]
+        nodes = sorted(c.nodes.keys())
+        two = [n for n in names if len(c._elements[n].nodes) == 2][:4]
+        others = [n for n in nodes if n != '0']
+        pair = (others[0], others[-1]) if len(others) >= 2 else None
+
+        def S(x):
+            if isinstance(x, (set, frozenset)):
+                return '{' + ','.join(sorted(S(v) for v in x)) + '}'
+            if isinstance(x, (list, tuple)):
+                return '[' + ','.join(S(v) for v in x) + ']'
+            if isinstance(x, dict):
+                return '{' + ','.join('%s:%s' % (S(k), S(v)) for k, v in sorted(x.items())) + '}'
+            return an(str(x))
+
+        def SS(x):      # order-free
+            return '[' + ','.join(sorted(S(v) for v in x)) + ']'
+        items = [('nodes', lambda: SS(c.nodes.keys())),
+                 ('node_list', lambda: S(c.node_list)),
+                 ('equipotential_nodes', lambda: S(dict((k, sorted(v)) for k, v in c.equipotential_nodes.items()))),
+                 ('unconnected_nodes', lambda: SS(c.unconnected_nodes())),
+                 ('conn', lambda: S(dict((n, sorted(an(x.name) for x in nd.connected)) for n, nd in c.nodes.items()))),
+                 ('counts', lambda: S(dict((n, nd.count) for n, nd in c.nodes.items()))),
+                 ('dangling_nodes', lambda: SS(n for n, nd in c.nodes.items() if nd.is_dangling)),
+                 ('is_connected', lambda: S(bool(c.is_connected))),
+                 ('branch_list', lambda: S(c.branch_list)),
+                 ('in_series', lambda: SS(c.in_series())),
+                 ('in_parallel', lambda: SS(c.in_parallel()))]
+        for n in two:
+            items.append(('in_series(%s)' % an(n), lambda n=n: SS(c.in_series(n))))
+            items.append(('in_parallel(%s)' % an(n), lambda n=n: SS(c.in_parallel(n))))
+        for n in two[:2]:
+            nn = [x.name for x in c._elements[n].nodes]
+            items.append(('across_nodes(%s,%s)' % (nn[0], nn[1]), lambda nn=nn: SS(c.across_nodes(nn[0], nn[1]))))
+        if nodes:
+            items.append(('unreachable_nodes(%s)' % nodes[0], lambda: SS(c.unreachable_nodes(nodes[0]))))
+        if pair and '0' in nodes:
+            items.append(('ladder(%s,0,%s,0)' % pair, lambda: S(c.ladder(pair[0], '0', pair[1], '0'))))
+        items += [('loops', lambda: SS(S(l) for l in c.cg.loops())),
+                  ('dependent_sources', lambda: S(c.dependent_sources)),
+                  ('twoports', lambda: S(c.twoports))]
+        out = []
+        for rnd in ('1', '2'):
+            for nm, f in items:
+                try:
+                    v = f()
+                except Exception as e:      # noqa
+                    v = 'error:' + type(e).__name__
+                out.append(('%s#%s=%s' % (nm, rnd, v)).replace(' ', ''))
+        return out
 
     def canon(self, x):
         S = self.sympy
@@ -136,8 +214,31 @@ class Real:
 
     def query1(self, c, q, arg=None):
         try:
+            an = self.an
+            if q == 'loops':
+                return self.canon(sorted(str(l) for l in c.cg.loops()))
+            if q == 'unconnected_nodes':
+                return self.canon(sorted(c.unconnected_nodes()))
+            if q == 'equipotential_nodes':
+                return self.canon(sorted('%s:%s' % (k, '+'.join(sorted(v))) for k, v in c.equipotential_nodes.items()))
+            if q in ('in_series', 'in_parallel'):
+                r = getattr(c, q)(arg) if arg is not None else getattr(c, q)()
+                if arg is None:
+                    return self.canon(sorted('+'.join(sorted(an(x) for x in g)) for g in r))
+                return self.canon(sorted(an(x) for x in r))
+            if q == 'across_nodes':
+                return self.canon(sorted(an(x) for x in c.across_nodes(arg[0], arg[1])))
+            if q == 'unreachable_nodes':
+                return self.canon(sorted(c.unreachable_nodes(arg)))
+            if q == 'ladder':
+                return an(str(c.ladder(arg[0], '0', arg[1], '0'))).replace(' ', '')
+            if q == 'thevenin':
+                th = c.thevenin(arg[0], arg[1])
+                S = self.sympy
+                from lcapy import s
+                return str(S.cancel(th.Z.sympy.subs(s.sympy, self.spoint))) + ';' + self.value_at(th.Voc)
             if q in LIST_QUERIES:
-                return self.canon([str(k) for k in getattr(c, q)])
+                return self.canon([an(str(k)) for k in getattr(c, q)])
             if q in BOOL_QUERIES:
                 return self.canon(bool(getattr(c, q)))
             if q == 'get_Vd':
@@ -194,17 +295,31 @@ def op_line(op):
     if k == 'remove':
         return 'remove %d %s' % (op[1], op[2])
     if k == 'query':
-        return 'query %d %s' % (op[1], op[2])
+        # the harness asks every query twice in a row and then runs the battery twice (see History.do_query)
+        q = MODEL_QUERY.get(op[2], op[2])
+        return 'query %d %s ; query %d %s ; query %d battery ; query %d battery' % (op[1], q, op[1], q, op[1], op[1])
+    if k == 'setting':
+        # toggling a process-wide setting is not an operation of the netlist machine
+        return ''
+    if k == 'query1':
+        return 'query %d %s' % (op[1], MODEL_QUERY.get(op[2], op[2]))
     if k == 'derive':
         lines = op[3]
         return 'derive %d %s %s' % (op[1], op[2], ' '.join('| ' + l for l in lines))
     raise ValueError(op)
 
 
-def line_ok_for_model(line):
-    """two-terminal component lines with an explicit name and without schematic options"""
+def line_ok_for_model(line, drv=None):
+    """component lines (any arity: the driver reads the node fields off the generated grammar table) with an explicit
+    name and without schematic options, braces or namespaces"""
     t = line.split()
-    return len(t) >= 3 and ';' not in line and '|' not in line and re.match(r'^[RCLVIWO][A-Za-z0-9_]+$', t[0]) is not None
+    if len(t) < 2 or ';' in line or '|' in line or '{' in line or '"' in line or '.' in t[0]:
+        return False
+    if re.match(r'^[A-Za-z]+[0-9][A-Za-z0-9_]*$', t[0]) is None:
+        return False
+    if drv is not None:
+        return drv.ask1('c16.line ' + line).startswith('ok')
+    return True
 
 
 class History:
@@ -227,10 +342,15 @@ class History:
         self.uncleared = [u for u in dict(t.split('=') for t in drv.ask1('c16.cfg').split())['uncleared'].split(',') if u != '-']
         self.pending = []        # observations whose fresh-build comparison is deferred to the end of the history
         self.struct_flagged = {}  # instance -> taint under which a structural difference was already reported
+        self.impure_flagged = set()
+        self.setting_touched = None   # a process-wide setting was toggled (and toggled back) earlier in this history
+        from lcapy import state as _st
+        self.state = _st
+        self.base_context = _st.context
 
     # ---- helpers
     def model_ops(self):
-        return ' ; '.join(op_line(o) for o in self.ops)
+        return ' ; '.join(x for x in (op_line(o) for o in self.ops) if x)
 
     def new_instance(self, c, op, modelled=True):
         self.insts.append(c)
@@ -268,9 +388,9 @@ class History:
                              'text': self.R.text(c), 'kind': c.kind, 'hist': hist})
         if self.modelled[i]:
             r = self.drv.ask1('c16.obs %d %s' % (i, self.model_ops()))
-            mod = [t for t in r.split() if t.split('=')[0] in ('elts', 'counts', 'dang')]
+            mod = [t for t in r.split() if t.split('=')[0] in Real.MODEL_STRUCT]
             self.chk.coverage['correspondence']['compared'] += 1
-            if mod != hist:
+            if mod != [t for t in hist if t.split('=')[0] in Real.MODEL_STRUCT]:
                 self.chk.coverage['correspondence']['disagreements'] += 1
                 self.disagree.append({'what': 'structural', 'instance': i, 'model': mod, 'lcapy': hist,
                                       'ops': self.model_ops()})
@@ -290,7 +410,7 @@ class History:
         self.chk.count('answer-kind', 'error' if got.startswith('error:') else 'value')
         self.pending.append({'what': 'query', 'k': len(self.ops), 'i': i, 'q': q, 'arg': arg, 'taint': self.taint[i],
                              'text': self.R.text(c), 'kind': c.kind, 'hist': got, 'trace': trace_rec, 'modelled': self.modelled[i],
-                             'snap': dict(self.snap[i])})
+                             'snap': dict(self.snap[i]), 'setting': self.setting_touched})
         return got
 
     # ---- the deferred oracle
@@ -302,6 +422,8 @@ class History:
                 self.finish_struct(p)
             elif p['what'] == 'query':
                 self.finish_query(p)
+            elif p['what'] == 'battery':
+                self.finish_battery(p)
             else:
                 self.finish_derive(p)
         self.ops = ops_all
@@ -311,9 +433,10 @@ class History:
         fresh = self.R.structural(self.R.fresh(p['text'], p['kind']))
         if not self.spec_same(p['hist'], fresh) and self.struct_flagged.get(i) != p['taint']:
             self.struct_flagged[i] = p['taint']
+            differs = [a.split('=')[0] for a, b in zip(p['hist'], fresh) if a != b]
             self.counterexample({'kind': 'node-count', 'after': p['taint'], 'op': p['cause']},
-                                'node counters / dangling flags differ from a fresh build after %s' % p['cause'],
-                                {'instance': i, 'lcapy': p['hist'], 'fresh': fresh, 'netlist': p['text']})
+                                'node table (%s) differs from a fresh build after %s' % (','.join(differs), p['cause']),
+                                {'instance': i, 'lcapy': p['hist'], 'fresh': fresh, 'netlist': p['text'], 'differs': differs})
 
     def finish_query(self, p):
         i, q, arg, got, trace_rec = p['i'], p['q'], p['arg'], p['hist'], p['trace']
@@ -334,6 +457,8 @@ class History:
                 slot = unc[0] if unc else None
             key = {'kind': 'stale-memo', 'slot': slot, 'after': p['taint']} if slot else \
                   {'kind': 'query-differs', 'query': q, 'after': p['taint']}
+            if slot is None and p['taint'] == 'clean' and p.get('setting'):
+                key = {'kind': 'setting-trace', 'setting': p['setting'], 'query': q}
             self.counterexample(key, '%s differs from the answer of a freshly built circuit' % q,
                                 {'instance': i, 'query': q, 'arg': arg, 'lcapy': got, 'fresh': want,
                                  'model': trace_rec, 'netlist': p['text']})
@@ -362,6 +487,28 @@ class History:
             else:
                 self.chk.count('model-prediction', 'tainted-no-exact-prediction')
 
+    def finish_battery(self, p):
+        """QUERY PURITY on the real code: the battery made on the instance right after a query op (each item twice)
+        must equal the same battery on a circuit rebuilt from the netlist text"""
+        i = p['i']
+        fresh = self.R.battery(self.R.fresh(p['text'], p['kind']))
+        self.chk.count('battery', 'compared')
+        if self.spec_same(p['hist'], fresh):
+            return
+        bad = [(a, b) for a, b in zip(p['hist'], fresh) if a != b]
+        if len(p['hist']) != len(fresh):
+            bad = bad or [('length %d' % len(p['hist']), 'length %d' % len(fresh))]
+        item = re.sub(r'\(.*?\)', '', bad[0][0].split('#')[0])
+        tag = (i, p['taint'], item)
+        if tag in self.impure_flagged:
+            return
+        self.impure_flagged.add(tag)
+        # a difference that an earlier mutation explains (stale memo, node table) is keyed by the taint, otherwise it is the query
+        key = {'kind': 'query-impure', 'query': p['cause'], 'item': item, 'after': p['taint']}
+        self.counterexample(key, 'after the read-only %s the observation %s on the same instance differs from a freshly built circuit'
+                            % (p['cause'], item),
+                            {'instance': i, 'query': p['cause'], 'arg': p.get('arg'), 'differences': bad[:6], 'netlist': p['text']})
+
     def finish_derive(self, p):
         kind, i = p['kind'], p['i']
         try:
@@ -377,11 +524,11 @@ class History:
                                 {'instance': i, 'lcapy': a, 'fresh': b, 'netlist': p['text']})
 
     # ---- running ops
-    def model_trace_last(self):
+    def model_trace_last(self, back=1):
         r = self.drv.ask1('c16.trace ' + self.model_ops())
         if r == 'bad-op':
             raise common.Infra('driver rejected ops: ' + self.model_ops()[:300])
-        return r.split(' | ')[-1]
+        return r.split(' | ')[-back]
 
     def do_new(self, text):
         """Circuit() followed by public adds of the lines"""
@@ -405,9 +552,11 @@ class History:
         self.ops.append(('addraw' if raw else 'add', i, line))
         if over and flag == 'ok' and self.taint[i] == 'clean':
             self.taint[i] = 'override'
+        if flag == 'raise':
+            self.after_failed_add(i)
         self.record_snaps()
-        self.chk.count('op', ('override' if over else 'add') + ('-raw' if raw else ''))
-        self.after_mutation(i, flag, 'override' if over else 'add')
+        self.chk.count('op', ('failing-add' if flag == 'raise' else 'override' if over else 'add') + ('-raw' if raw else ''))
+        self.after_mutation(i, flag, 'failed-add' if flag == 'raise' else 'override' if over else 'add')
 
     def do_addlines(self, i, lines):
         """public add of a multi-line string (the form the Circuit constructor uses)"""
@@ -422,9 +571,25 @@ class History:
         self.ops.append(('addlines', i, list(lines)))
         if over and flag == 'ok' and self.taint[i] == 'clean':
             self.taint[i] = 'override'
+        if flag == 'raise':
+            self.after_failed_add(i)
         self.record_snaps()
-        self.chk.count('op', 'add-multiline')
-        self.after_mutation(i, flag, 'add-multiline')
+        self.chk.count('op', 'add-multiline' if flag == 'ok' else 'failing-add-multiline')
+        self.after_mutation(i, flag, 'add-multiline' if flag == 'ok' else 'failed-add')
+
+    def after_failed_add(self, i):
+        """an `add` that raised: from now on differences of this instance are attributed to it (taint), and the symbol
+        context that `add` switched to must have been restored"""
+        if self.taint[i] == 'clean':
+            self.taint[i] = 'failed-add'
+        st = self.state
+        if st.context is not self.base_context or st.previous_context:
+            self.counterexample({'kind': 'context-leak', 'after': 'failed-add'},
+                                'add() raised and left the symbol context switched to the circuit\'s context',
+                                {'instance': i, 'context_stack_depth': len(st.previous_context)})
+            # put the process back so that the rest of the history is not judged under the leaked context
+            while st.previous_context:
+                st.restore_context()
 
     def do_remove(self, i, name):
         c = self.insts[i]
@@ -455,8 +620,20 @@ class History:
 
     def do_query(self, i, q, arg=None):
         self.ops.append(('query', i, q) if arg is None else ('query', i, q, arg))
-        rec = self.model_trace_last() if self.modelled[i] else None
+        # the model op sequence of a query op is: q, q, battery, battery -- the prediction for the first call is 4 back
+        rec = self.model_trace_last(4) if self.modelled[i] else None
         got = self.check_query(i, q, arg, rec)
+        c = self.insts[i]
+        if got != 'error:Timeout':
+            # the same query once more, directly: a destructive query shows on its second call
+            again = self.R.query(c, q, arg)
+            if again != got and 'error:Timeout' not in (again, got):
+                self.counterexample({'kind': 'query-not-idempotent', 'query': q, 'after': self.taint[i]},
+                                    '%s called twice in a row gives two different answers' % q,
+                                    {'instance': i, 'query': q, 'arg': arg, 'first': got, 'second': again, 'netlist': self.R.text(c)})
+        # QUERY PURITY: the fixed battery on the same instance, compared (deferred) with the battery on a fresh rebuild
+        self.pending.append({'what': 'battery', 'k': len(self.ops), 'i': i, 'cause': q, 'arg': arg, 'taint': self.taint[i],
+                             'text': self.R.text(c), 'kind': c.kind, 'hist': self.R.battery(c)})
         self.record_snaps()
         self.chk.count('op', 'query')
         # a query must not change the circuit (queries on circuits without ground may add a wire: skipped by the generator)
@@ -464,6 +641,27 @@ class History:
             self.check_structural(j, 'query')
         self.chk.case((self.label, len(self.ops)), True)
         return got
+
+    def do_setting(self, name, i, q, arg=None):
+        """toggle a process-wide setting, ask a query under it (its answer legitimately depends on the setting and is not
+        compared), toggle it back: no trace may remain -- every later observation is compared with a fresh rebuild"""
+        owner, attr = name.split('.', 1)
+        obj = self.state
+        old = getattr(obj, attr)
+        alt = SETTING_ALTS[name]
+        c = self.insts[i]
+        self.ops.append(('setting', name, i, q) if arg is None else ('setting', name, i, q, arg))
+        setattr(obj, attr, alt)
+        try:
+            self.R.query(c, q, arg)
+        finally:
+            setattr(obj, attr, old)
+        # the query under the toggled setting went through the memo layer like any other
+        self.ops.append(('query1', i, q))
+        self.setting_touched = name
+        self.chk.count('op', 'setting-toggle')
+        self.chk.count('setting', name)
+        self.record_snaps()
 
     def do_derive(self, i, kind):
         c = self.insts[i]
@@ -486,7 +684,7 @@ class History:
             self.record_snaps()
             return None
         lines = [l for l in self.R.text(d).split('\n') if l.strip()]
-        modelled = self.modelled[i] and all(line_ok_for_model(l) for l in lines) and len(set(l.split()[0] for l in lines)) == len(lines)
+        modelled = self.modelled[i] and all(line_ok_for_model(l, self.drv) for l in lines) and len(set(l.split()[0] for l in lines)) == len(lines)
         if modelled:
             j = self.new_instance(d, ('derive', i, kind, lines), True)
         else:
@@ -515,6 +713,61 @@ def fresh_name(h, i, kind):
     return '%s%d' % (kind, n)
 
 
+MULTI_KINDS = ['E', 'E', 'G', 'G', 'Eop', 'F', 'H', 'TF', 'TP', 'GY', 'K']
+
+
+def kind_prefix(kind):
+    return {'Eop': 'E'}.get(kind, kind)
+
+
+def rand_multi_line(rng, name, kind, c):
+    """a component with more than two terminals (or none): VCVS / VCCS with sense nodes, opamp form, CCCS / CCVS with
+    their controlling voltage source, ideal transformer, two-port, gyrator, mutual inductance"""
+    n = rng.sample(NODES, 4)
+    val = rng.randint(2, 9)
+    if kind in ('E', 'G', 'TF', 'GY'):
+        return '%s %s %s %s %s %d' % (name, n[0], n[1], n[2], n[3], val)
+    if kind == 'Eop':
+        return '%s %s %s opamp %s %s' % (name, n[0], n[1], n[2], n[3]) + (' %d' % (10 * val) if rng.random() < 0.5 else '')
+    if kind in ('F', 'H'):
+        vs = [x for x in c._elements if x[0] == 'V'] or ['V1']
+        return '%s %s %s %s %d' % (name, n[0], n[1], rng.choice(vs), val)
+    if kind == 'TP':
+        return '%s %s %s %s %s Z %d %d %d %d' % (name, n[0], n[1], n[2], n[3], val, 1, 1, val + 1)
+    if kind == 'K':
+        ls = [x for x in c._elements if x[0] == 'L']
+        if len(ls) >= 2:
+            a, b = rng.sample(ls, 2)
+            return '%s %s %s 1/%d' % (name, a, b, val)
+        return '%s L8 L9 1/%d' % (name, val)
+    raise ValueError(kind)
+
+
+def rand_bad_lines(rng, h, i):
+    """a line (or a multi-line string) that `add` rejects: before the component is constructed (unknown type, missing
+    node, too many fields) or after its constructor attached it (reserved name, value that does not parse)"""
+    a, b, c3 = rng.sample(NODES, 3)
+    r = rng.random()
+    nm = fresh_name(h, i, 'R')
+    if r < 0.15:
+        bad = 'X7 %s %s' % (a, b)
+    elif r < 0.3:
+        bad = '%s %s' % (nm, a)
+    elif r < 0.4:
+        bad = '%s %s %s 1 2 3 4 5' % (nm, a, b)
+    elif r < 0.5:
+        bad = '%s %s %s %s' % (fresh_name(h, i, 'E'), a, b, c3)
+    elif r < 0.75:
+        bad = '%s %s %s %d' % (rng.choice(['Isc', 'Voc', 'Vdict', 'Idict', 'Vname', 'Iname']), a, b, rng.randint(1, 5))
+    else:
+        bad = '%s %s %s {%d%s}' % (nm, a, b, rng.randint(1, 5), rng.choice('+*('))
+    if rng.random() < 0.35:
+        good = fresh_name(h, i, 'C')
+        h.counter[(i, good)] = True
+        return [rand_line(rng, good), bad]
+    return [bad]
+
+
 def rand_line(rng, name, symbolic=False):
     k = name[0]
     a, b = rng.sample(NODES, 2)
@@ -541,6 +794,12 @@ BASES = [
     ['V1 1 0 dc 6', 'R1 1 2 1', 'R2 2 3 2', 'R3 3 0 3', 'R4 2 0 6'],
     ['V1 1 0 ac 3', 'R1 1 2 4', 'L1 2 0 1'],
     ['V1 1 0 5', 'R1 1 2 Rx', 'R2 2 0 2'],
+    ['V1 1 0 6', 'R1 1 2 2', 'R2 2 0 1', 'Rs 1 3 5', 'E1 4 0 3 0 10', 'RL 4 0 7'],
+    ['V1 1 0 4', 'R1 1 2 3', 'G1 3 0 2 0 2', 'R2 3 0 5', 'R3 2 0 1'],
+    ['V1 1 0 step 2', 'R1 1 2 2', 'C1 2 0 3', 'R2 2 3 4', 'C2 3 0 5', 'R3 3 4 6', 'C3 4 0 7'],
+    ['V1 1 0 5', 'R1 1 2 1', 'F1 3 0 V1 2', 'R2 3 0 4', 'R3 2 0 2'],
+    ['V1 1 0 ac 3', 'R1 1 2 1', 'TF1 3 0 2 0 2', 'R2 3 0 8'],
+    ['V1 1 0 3', 'R1 1 2 2', 'E1 3 0 opamp 2 4', 'R2 4 0 1', 'R3 3 4 5'],
 ]
 
 
@@ -560,9 +819,19 @@ def gen_history(chk, h, rng, nops, heavy, deadline=None):
         c = h.insts[i]
         names = list(c._elements.keys())
         r = rng.random()
-        if r < 0.20:
+        if r < 0.13:
             kind = rng.choice('RRRCCLVIW' + ('O' if rng.random() < 0.5 else 'R'))
             h.do_add(i, rand_line(rng, fresh_name(h, i, kind), symbolic=(i == 1)))
+        elif r < 0.185:
+            kind = rng.choice(MULTI_KINDS)
+            h.do_add(i, rand_multi_line(rng, fresh_name(h, i, kind_prefix(kind)), kind, c))
+            chk.count('multi-terminal', kind)
+        elif r < 0.20:
+            bad = rand_bad_lines(rng, h, i)
+            if len(bad) == 1:
+                h.do_add(i, bad[0])
+            else:
+                h.do_addlines(i, bad)
         elif r < 0.225:
             lines = []
             for _ in range(rng.randint(2, 3)):
@@ -572,15 +841,43 @@ def gen_history(chk, h, rng, nops, heavy, deadline=None):
                 lines.append(rand_line(rng, nm, symbolic=(i == 1)))
             h.do_addlines(i, lines)
         elif r < 0.27 and names:
-            nm = rng.choice([n for n in names if n[0] in 'RCLVIW'] or names)
-            if nm[0] in 'RCLVIWO' and 'anon' not in nm:
+            nm = rng.choice([n for n in names if n[0] in 'RCLVIWEG'] or names)
+            if nm[0] in 'RCLVIWO' and 'anon' not in nm and re.match(r'^[RCLVIWO][0-9]+$', nm):
                 h.do_add(i, rand_line(rng, nm))
+            elif re.match(r'^[EG][0-9]+$', nm):
+                # override a four-terminal component by one with other sense nodes
+                h.do_add(i, rand_multi_line(rng, nm, nm[0], c))
         elif r < 0.37 and names:
             h.do_remove(i, rng.choice(names))
         elif r < 0.39:
             h.do_remove(i, 'R99')
-        elif r < 0.74:
+        elif r < 0.60:
             h.do_query(i, rng.choice(CHEAP_QUERIES))
+        elif r < 0.72:
+            q, ak = rng.choice(GRAPH_QUERIES)
+            nodes = sorted(c.nodes.keys())
+            if ak == 'cpt?':
+                h.do_query(i, q, rng.choice(names) if names and rng.random() < 0.7 else None)
+            elif ak == 'node' and nodes:
+                h.do_query(i, q, rng.choice(nodes))
+            elif ak == 'node2' and q == 'across_nodes' and len(nodes) >= 2:
+                two = [n for n in names if len(c._elements[n].nodes) == 2]
+                if two and rng.random() < 0.7:
+                    h.do_query(i, q, tuple(x.name for x in c._elements[rng.choice(two)].nodes))
+                else:
+                    h.do_query(i, q, tuple(rng.sample(nodes, 2)))
+            elif ak == 'node2' and q == 'ladder' and '0' in nodes and len(nodes) >= 3:
+                h.do_query(i, q, tuple(rng.sample([n for n in nodes if n != '0'], 2)))
+        elif r < 0.74:
+            if '0' in c.nodes and names:
+                nm = rng.choice(sorted(SETTING_ALTS))
+                nodes = sorted(n for n in c.nodes if n != '0')
+                if nodes and rng.random() < 0.5:
+                    h.do_setting(nm, i, 'get_Vd', rng.choice(nodes))
+                elif rng.random() < 0.6:
+                    h.do_setting(nm, i, 'get_I', rng.choice(names))
+                else:
+                    h.do_setting(nm, i, rng.choice(CHEAP_QUERIES))
         elif r < 0.82:
             if '0' in c.nodes and names:
                 if rng.random() < 0.6:
@@ -599,7 +896,7 @@ def gen_history(chk, h, rng, nops, heavy, deadline=None):
             q = rng.choice(HEAVY_QUERIES)
             if '0' in c.nodes and len(names) <= 6 and nheavy < 3:
                 nheavy += 1
-                if q == 'transfer':
+                if q in ('transfer', 'thevenin'):
                     nodes = sorted(n for n in c.nodes if n != '0')
                     if len(nodes) >= 2:
                         h.do_query(i, q, tuple(rng.sample(nodes, 2)))
@@ -770,6 +1067,22 @@ def corpus_histories():
     return [
         ('builtin:query-add-query', [('new', ['V1 1 0 5', 'R1 1 2 1', 'R2 2 0 2']), ('query', 0, 'capacitors'),
                                      ('add', 0, 'C1 2 0 1'), ('query', 0, 'capacitors'), ('query', 0, 'has_dc')]),
+        # components with more than two terminals: remove / override must detach every node
+        ('builtin:multi-terminal-remove', [('new', ['V1 1 0 6', 'R1 1 2 2', 'R2 2 0 1', 'Rs 1 3 5', 'E1 4 0 3 0 10', 'RL 4 0 7']),
+                                           ('query', 0, 'node_list'), ('remove', 0, 'E1'), ('query', 0, 'unconnected_nodes'),
+                                           ('remove', 0, 'RL'), ('remove', 0, 'Rs'), ('query', 0, 'is_connected'),
+                                           ('add', 0, 'G1 2 0 1 5 3'), ('add', 0, 'G1 2 0 1 0 3'), ('query', 0, 'node_list'),
+                                           ('add', 0, 'TF1 3 0 2 0 2'), ('remove', 0, 'TF1'), ('query', 0, 'equipotential_nodes')]),
+        # read-only graph queries one after the other on the same instance
+        ('builtin:graph-queries', [('new', ['R1 1 2 2', 'C1 2 0 3', 'R2 2 3 4', 'C2 3 0 5', 'R3 3 4 6', 'C3 4 0 7']),
+                                   ('query', 0, 'ladder', ('1', '4')), ('query', 0, 'in_series', None), ('query', 0, 'in_parallel', 'C1'),
+                                   ('query', 0, 'across_nodes', ('2', '0')), ('query', 0, 'unreachable_nodes', '0'),
+                                   ('query', 0, 'is_connected'), ('query', 0, 'loops'), ('query', 0, 'ladder', ('1', '4'))]),
+        # the exception branch of add
+        ('builtin:failing-adds', [('new', ['V1 1 0 5', 'R1 1 2 1', 'R2 2 0 2']), ('query', 0, 'node_list'),
+                                  ('add', 0, 'R5 2'), ('add', 0, 'X1 1 2'), ('remove', 0, 'R99'), ('query', 0, 'node_list'),
+                                  ('add', 0, 'Isc 2 3 1'), ('query', 0, 'unconnected_nodes'),
+                                  ('addlines', 0, ['R9 2 7 1', 'R5 2']), ('query', 0, 'node_list')]),
     ]
 
 
@@ -789,6 +1102,8 @@ def run_script(h, script):
             h.do_query(st[1], st[2], st[3] if len(st) > 3 else None)
         elif st[0] == 'derive':
             h.do_derive(st[1], st[2])
+        elif st[0] == 'setting':
+            h.do_setting(st[1], st[2], st[3], st[4] if len(st) > 4 else None)
 
 
 # --------------------------------------------------------------------------- main
@@ -830,7 +1145,13 @@ def run(chk, replay=None):
     chk.coverage['translator'] = {'status': 'ok', 'memoised': info['memoised'], 'cleared': info['cleared'],
                                   'not_cleared': info['not_cleared'], 'mutators': info['mutators'],
                                   'overrideDetaches': info['overrideDetaches'], 'keepConnectedNode': info['keepConnectedNode'], 'initInvalidates': info['initInvalidates'],
-                                  'setIterationSites': info['setIterationSites'], 'unparsed': info['unparsed']}
+                                  'setIterationSites': info['setIterationSites'], 'unparsed': info['unparsed'],
+                                  'removeSel': info['removeSel'], 'overrideSel': info['overrideSel'], 'grammar_rules': info['rules'],
+                                  'addRestoresContextOnError': info['addRestoresContextOnError'],
+                                  'addInvalidatesOnError': info['addInvalidatesOnError'],
+                                  'ctorDetachesOnError': info['ctorDetachesOnError'], 'registerDetachesOnError': info['registerDetachesOnError'],
+                                  'sharedHandouts': info['sharedHandouts'], 'sharedMutations': info['sharedMutations'],
+                                  'damages': info['damages'], 'settings': info['settings']}
     # ---- 2. proofs
     broken = chk.lean(PROP_MAIN, helper_files=HELPERS, leanchecker=(chk.tier == 'thorough'))
     code_broken = build_code_modules(chk) if not broken else []
@@ -886,6 +1207,9 @@ def run(chk, replay=None):
                             h.do_query(o[1], q, (tuple(o[3]) if isinstance(o[3], list) else o[3]) if len(o) > 3 else None)
                     elif o[0] == 'derive':
                         h.do_derive(o[1], o[2])
+                    elif o[0] == 'setting':
+                        h.do_setting(o[1], o[2], o[3], (tuple(o[4]) if isinstance(o[4], list) else o[4]) if len(o) > 4 else None)
+                    # 'query1' records are produced by do_setting itself
             run_one('replay', rerun)
         elif 'netlist' in rp.get('input', {}):
             hash_seed_runs(chk, drv, rp.get('python_hash_seed', [0, 1]))
@@ -948,7 +1272,17 @@ def run(chk, replay=None):
                 'fresh_refinement_current': lambda k: k.get('kind') == 'stale-memo' or k.get('after') in ('override', 'failed-remove'),
                 'no_hash_order_iteration': lambda k: k.get('kind') == 'hash-seed',
                 'transform_keys_complete': lambda k: k.get('kind') == 'transform-cache',
-                'add_multi_invalidates': lambda k: k.get('kind') == 'stale-memo'}
+                'add_multi_invalidates': lambda k: k.get('kind') == 'stale-memo',
+                'remove_detaches_all_nodes': lambda k: k.get('kind') in ('node-count', 'query-impure', 'query-differs'),
+                'override_detaches_all_nodes': lambda k: k.get('after') == 'override',
+                'shared_cached_objects_not_mutated': lambda k: k.get('kind') in ('query-impure', 'query-not-idempotent'),
+                'no_query_damages_cache': lambda k: k.get('kind') in ('query-impure', 'query-not-idempotent'),
+                'query_transparent_current': lambda k: k.get('kind') in ('query-impure', 'query-not-idempotent'),
+                'add_invalidates_on_error': lambda k: k.get('after') == 'failed-add' and k.get('kind') in ('stale-memo', 'query-impure', 'query-differs'),
+                'add_restores_context_on_error': lambda k: k.get('kind') == 'context-leak',
+                'failed_add_detaches': lambda k: k.get('after') == 'failed-add' and k.get('kind') == 'node-count',
+                'fresh_refinement_with_failures_current': lambda k: k.get('after') == 'failed-add',
+                'failed_op_atomic_current': lambda k: k.get('after') == 'failed-add'}
     unmatched = [k for k in all_found if common.match_finding(chk.findings, k) is None]
     for b in allb:
         thm = b.split(':')[-1]
